@@ -37,7 +37,8 @@ REQUIRED = dict(monitors=['deck-opaque-at-or-below-top', 'deck-zero-above', 'dec
                          'flat:set', 'flat:unset', 'flat:inverted', 'flat:outside', 'flat:below-1Pa',
                          'lee:set', 'lee:unset', 'lee:inverted', 'lee:outside', 'nlayers:2', 'retune:deck',
                          'retune:flat', 'retune:lee', 'retune:evaluation-after-write', 'retune:pressure-range-written',
-                         'retune:pressure-moved-by:array-refilled-in-place', 'retune:pressure-moved-by:fitting-parameters'])
+                         'retune:pressure-moved-by:array-refilled-in-place', 'retune:pressure-moved-by:fitting-parameters',
+                         'retune:deck-top-stepped-across-a-layer-pressure-by-a-hair'])
 
 
 def classify(f):
@@ -325,6 +326,7 @@ def wl_retune(ctx, rng):
     ctx.feature(summary=world.spec_summary(spec), retune=kind)
     rounds = int(rng.integers(2, 5))
     for r in range(rounds):
+        moved_now = False
         if r > 0 and rng.random() < 0.45 and spec['temperature']['kind'] != 'npoint':   # N-point nodes are tied to the range
             # the pressure range of the model is written (atm_max_pressure / atm_min_pressure are fitting parameters):
             # the layers move under an unchanged cloud top / haze window; the clear twin follows
@@ -341,10 +343,30 @@ def wl_retune(ctx, rng):
                 if kind != 'deck':
                     cls = window_class(bottom, top, lev) if bottom >= 0 and top >= 0 else 'unset'
                 ctx.observe('retune:pressure-range-written')
+                moved_now = True
                 if rng.random() < 0.5:
                     r = -r          # only the grid moved: keep the cloud / haze parameters as they are
         if r > 0:
-            if kind == 'deck':
+            if kind == 'deck' and not moved_now and rng.random() < 0.4:
+                # (not in a round that moved the pressure range: the model's layer pressures are its own, to the last bit,
+                # only after an evaluation)
+                # the cloud top is stepped ACROSS a layer pressure by a few parts per billion, as a converged sampler
+                # does: first a hair above the layer's pressure (the layer stays clear), evaluated, then onto it or a hair
+                # below (the layer is in the deck)
+                Pl = np.array(model.pressureProfile, dtype=float)
+                pi_ = float(Pl[int(rng.integers(0, len(Pl)))])
+                eps_ = float(10 ** rng.uniform(-9, -6))
+                pc = pi_ * (1.0 + eps_)
+                model['clouds_pressure'] = pc
+                pre = base.run_model(ctx, model, build=False)
+                if pre is None:
+                    return
+                judge_deck(ctx, clear, pre, np.array(model.pressureProfile, dtype=float), pc, evaluation=abs(r), retune=kind,
+                           hair='above')
+                pc = pi_ if rng.random() < 0.5 else pi_ * (1.0 - eps_)
+                model['clouds_pressure'] = pc
+                ctx.observe('retune:deck-top-stepped-across-a-layer-pressure-by-a-hair')
+            elif kind == 'deck':
                 pc = float(10 ** rng.uniform(lo - 1, hi + 1))
                 model['clouds_pressure'] = pc
             elif kind == 'flat':
